@@ -53,6 +53,14 @@ func (p *Prog) fc(r *Report, fn *ssa.Function, label string, ab [][2]string) *FC
 			spliced[ii.site.H] = true
 		}
 		ii.atom.Key = c.sh(ii.atom.Key)
+		if ctr, n, ok := tableCounter(ii.t); ok {
+			ii.tblCtr = ctr
+			for k := 0; k < n; k++ {
+				a := atomOfTerm(instantiateCounter(ii.t, ctr, k))
+				a.Key = c.sh(a.Key)
+				ii.insts = append(ii.insts, a)
+			}
+		}
 		c.ifs = append(c.ifs, ii)
 	}
 	// branches of helpers that are not walked through (procedures, value helpers): listed so
@@ -825,9 +833,31 @@ func (c *FC) mustPass(rule, what string, via []ssa.Instruction, targets []ssa.In
 
 // onCycle: is the instruction's block on a CFG cycle?
 func (c *FC) onCycle(in ssa.Instruction) bool {
-	fi := c.p.info(c.fn)
-	b := in.Block()
-	return fi.reach[b.Index][b.Index]
+	// in a loop of the function that contains it, or reached through a call that is
+	cur := in
+	for depth := 0; depth < 5; depth++ {
+		owner := cur.Parent()
+		if owner == nil {
+			return false
+		}
+		fi := c.p.info(owner)
+		b := cur.Block()
+		if fi.reach[b.Index][b.Index] {
+			return true
+		}
+		if owner == c.fn {
+			return false
+		}
+		sites := c.vof[owner]
+		if len(sites) == 0 {
+			return false
+		}
+		if len(sites) > 1 {
+			return true // executed once per site: more than once
+		}
+		cur = sites[0].call
+	}
+	return true
 }
 
 func sortStrings(s []string) { sort.Strings(s) }
